@@ -431,6 +431,7 @@ def main(mod_name, tier, seed, nshards=None, budget=None, quiet=True):
     shrink_s = {'quick': 25, 'thorough': 120}[tier]
     shrink_s = float(os.environ.get('VERIF_SHRINK_S', shrink_s))
 
+    shutil.rmtree(os.path.join(VERIF, 'replays', pid), ignore_errors=True)   # stale files of earlier runs
     stats_pre = Stats()
     # regression tier: stored cases of fixed findings / earlier shrunk failures, run first
     rdir = os.path.join(VERIF, 'regress', pid)
